@@ -28,7 +28,9 @@ fn keys() -> Vec<(String, PrivateKey)> {
 
 fn texts() -> Vec<&'static str> {
     vec!["plain", "", "line\nbreak", "back\\slash", "quote\"d", "tab\there", "nul\u{0}ctl\u{1f}", "\u{e9}\u{20ac}\u{1F600}", "mix \\n and \n", "\\\\n", "trailing\\",
-         "crlf\r\nend", "cr\rend", "lfcr\n\rend", " lead and trail ", "MiXeD Case", ".dotfile", "a//b/./c/"]
+         "crlf\r\nend", "cr\rend", "lfcr\n\rend", " lead and trail ", "MiXeD Case", ".dotfile", "a//b/./c/",
+         // a line feed right after a backslash, and the other way round (escape sequences that touch)
+         "bs-lf\\\nend", "lf-bs\n\\end", "bsbs-lf\\\\\nend", "quote-lf\"\nend"]
 }
 
 fn meta(text: &str) -> MetadataWrapper {
